@@ -5,11 +5,13 @@ package main
 import (
 	"bufio"
 	"bytes"
+	"io"
 	"math/big"
 	"math/rand"
 	"os"
 	"path/filepath"
 	"strings"
+	"testing/iotest"
 
 	secp256k1 "gitlab.com/yawning/secp256k1-voi"
 	"gitlab.com/yawning/secp256k1-voi/secec"
@@ -23,9 +25,25 @@ func init() {
 func driveSchnorr(c *ctx) {
 	rng := rand.New(rand.NewSource(c.seed))
 
+	// cold start: the first library calls of this process are a key import and verifications (a verifier-only process); key,
+	// message and signature come from math/big
+	for i := 0; i < 2; i++ {
+		pkb, m, sg := bigSchnorr(rng)
+		k, err := bitcoin.NewSchnorrPublicKey(pkb)
+		if err != nil {
+			c.E("lib.Unexpected", "what", "a valid x-only public key was rejected: "+err.Error(), "in", hx(pkb))
+			continue
+		}
+		out := k.Verify(m, sg)
+		c.E("schnorr.Verify", "pk", hx(k.Bytes()), "msg", hx(m), "sig", hx(sg), "out", out, "vector", false)
+	}
 	// ---- public-key import
 	newPub := func(b []byte) *bitcoin.SchnorrPublicKey {
-		k, err := bitcoin.NewSchnorrPublicKey(append([]byte{}, b...))
+		in := append([]byte{}, b...)
+		k, err := bitcoin.NewSchnorrPublicKey(in)
+		for i := range in { // the caller reuses its buffer: the key object must not move
+			in[i] ^= 0xA5
+		}
 		if err != nil {
 			c.E("schnorr.NewPub", "in", hx(b), "ok", false, "bytes", "", "point", "")
 			// a rejected input is offered again at once: what an error path leaves behind must not change the answer
@@ -108,7 +126,16 @@ func driveSchnorr(c *ctx) {
 				sig, err := deepSignSchnorr(&a32, sk, msg)
 				c.E("schnorr.Sign", "kind", "deep", "d", h32(d), "aux", hx(aux), "msg", hx(msg), "ok", err == nil, "sig", hx(sig),
 					"pub", hx(pk.Bytes()), "verified", err == nil && pk.Verify(msg, sig))
-				sig2, err2 := sk.Sign(&fixedReader{append([]byte{}, aux...)}, msg, nil)
+				var rd io.Reader = &fixedReader{append([]byte{}, aux...)}
+				switch (ki + mi + ai) % 4 { // the 32 bytes may arrive in any chunking, the last chunk may come with io.EOF
+				case 1:
+					rd = iotest.OneByteReader(bytes.NewReader(aux))
+				case 2:
+					rd = iotest.DataErrReader(bytes.NewReader(aux))
+				case 3:
+					rd = io.MultiReader(bytes.NewReader(aux[:13]), bytes.NewReader(aux[13:]))
+				}
+				sig2, err2 := sk.Sign(rd, msg, nil)
 				c.E("schnorr.Sign", "kind", "public", "d", h32(d), "aux", hx(aux), "msg", hx(msg), "ok", err2 == nil, "sig", hx(sig2),
 					"pub", hx(pk.Bytes()), "verified", err2 == nil && pk.Verify(msg, sig2))
 				if err != nil {
@@ -223,9 +250,22 @@ func driveSchnorr(c *ctx) {
 				verify(spk, m, sg, false)
 			}
 		}
+		decoded := func(b []byte) *secp256k1.Point { // a Z = 1 representative straight from the decoder
+			p, err := secp256k1.NewPointFromBytes(b)
+			if err != nil {
+				panic(err)
+			}
+			return p
+		}
 		for _, p := range []*secp256k1.Point{ek.PublicKey().Point(), rep(ek.PublicKey().Point(), add(randBig(rng, add(bigP, -1)), 1)),
-			secp256k1.NewIdentityPoint().Negate(ek.PublicKey().Point())} {
+			secp256k1.NewIdentityPoint().Negate(ek.PublicKey().Point()),
+			decoded(ek.PublicKey().CompressedBytes()), decoded(ek.PublicKey().Bytes()),
+			decoded(secp256k1.NewIdentityPoint().Negate(ek.PublicKey().Point()).CompressedBytes())} {
+			pre := hx(p.UncompressedBytes())
 			k, err := bitcoin.NewSchnorrPublicKeyFromPoint(p)
+			if post := hx(p.UncompressedBytes()); post != pre { // the point stays the caller's
+				c.E("lib.Unexpected", "what", "NewSchnorrPublicKeyFromPoint changed the caller's point", "before", pre, "after", post)
+			}
 			b, pt := "", ""
 			if err == nil {
 				b, pt = hx(k.Bytes()), hx(k.Point().UncompressedBytes())
